@@ -122,9 +122,11 @@ class Rep(AV):
     sep: AV
     alts: tuple
     nonempty: bool = False
+    tags: frozenset = frozenset()  # provenance of the joined sequence: dedup (came from a set), sorted, sorted+edit
 
     def __repr__(self) -> str:
-        return f"Rep[{self.sep!r}]({' | '.join(map(repr, self.alts))}){'+' if self.nonempty else '*'}"
+        t = "".join(f"#{x}" for x in sorted(self.tags))
+        return f"Rep[{self.sep!r}]({' | '.join(map(repr, self.alts))}){'+' if self.nonempty else '*'}{t}"
 
 
 @dataclass(frozen=True)
@@ -133,6 +135,7 @@ class ListV(AV):
     open: bool = False  # True: an unknown number of further elements, each one of ``items`` (alternatives)
     kind: str = "list"  # list | set | tuple
     nonempty: bool = False
+    tags: frozenset = frozenset()  # dedup / sorted / sorted+edit (see Rep)
 
     def __repr__(self) -> str:
         b = {"list": "[]", "set": "{}", "tuple": "()"}[self.kind]
@@ -973,7 +976,7 @@ class Interp:
         # remember (non-)emptiness of tracked collections bound to variables
         for name, val in list(s.env.items()):
             if val is v and isinstance(v, ListV) and v.open:
-                s.env[name] = ListV(v.items, True, v.kind, True) if truth else ListV((), False, v.kind)
+                s.env[name] = ListV(v.items, True, v.kind, True, v.tags) if truth else ListV((), False, v.kind, False, v.tags)
         if isinstance(v, Sym) and not truth:
             pass
 
@@ -1598,12 +1601,21 @@ class Interp:
                 if t is not None:
                     return [(Const(t), s)]
                 return [(Const(tr), st) for tr, st in self.fork(f"truthy:{self.vkey(args[0])}", s)]
-            if n in ("list", "tuple", "set", "frozenset", "sorted") and len(args) <= 1 and not kws:
+            if n in ("list", "tuple", "set", "frozenset", "sorted") and len(args) <= 1 and (not kws or n == "sorted"):
                 if not args:
                     return [(ListV((), False, {"tuple": "tuple", "set": "set", "frozenset": "set"}.get(n, "list")), s)]
                 a = args[0]
-                if isinstance(a, ListV) and n != "sorted":
-                    return [(ListV(a.items, a.open, {"tuple": "tuple", "set": "set", "frozenset": "set"}.get(n, "list"), a.nonempty), s)]
+                if isinstance(a, ListV):
+                    tags = set(a.tags)
+                    if a.kind == "set" or n in ("set", "frozenset"):
+                        tags.add("dedup")
+                    if n == "sorted":
+                        tags.discard("sorted+edit")
+                        tags.add("sorted")
+                    elif n in ("set", "frozenset"):
+                        tags -= {"sorted", "sorted+edit"}
+                    return [(ListV(a.items, a.open, {"tuple": "tuple", "set": "set", "frozenset": "set"}.get(n, "list"), a.nonempty,
+                                   frozenset(tags)), s)]
                 return [(App(n, args, kws, line), s)]
             if n == "getattr" and len(args) >= 2 and isinstance(args[1], Const):
                 attr = args[1].v
@@ -1640,8 +1652,9 @@ class Interp:
             path = self.path_of(e.func.value, s)
             if isinstance(recv, ListV):
                 if meth in ("append", "add") and len(args) == 1:
-                    new = ListV(recv.items + (args[0],), recv.open, recv.kind, True) if not recv.open or args[0] not in recv.items \
-                        else ListV(recv.items, True, recv.kind, True)
+                    tg = frozenset("sorted+edit" if t == "sorted" else t for t in recv.tags)
+                    new = ListV(recv.items + (args[0],), recv.open, recv.kind, True, tg) if not recv.open or args[0] not in recv.items \
+                        else ListV(recv.items, True, recv.kind, True, tg)
                     if path:
                         s.env[path] = new
                     self.effect(s, "mutate", f"{path or '?'}.{meth}", args, kws, e)
@@ -1649,7 +1662,8 @@ class Interp:
                 if meth in ("sort",):
                     self.effect(s, "mutate", f"{path or '?'}.{meth}", args, kws, e)
                     if path:
-                        s.env[path] = ListV(recv.items, recv.open, recv.kind, recv.nonempty)
+                        s.env[path] = ListV(recv.items, recv.open, recv.kind, recv.nonempty,
+                                            frozenset((set(recv.tags) - {"sorted+edit"}) | {"sorted"}))
                     return [(Const(None), s)]
                 if meth == "union" and len(args) == 1 and isinstance(args[0], ListV):
                     o = args[0]
@@ -1664,7 +1678,8 @@ class Interp:
                 if meth in ("pop", "remove", "clear", "insert", "index"):
                     self.effect(s, "mutate", f"{path or '?'}.{meth}", args, kws, e)
                     if path and meth != "index":
-                        s.env[path] = ListV(recv.items, True, recv.kind)
+                        s.env[path] = ListV(recv.items, True, recv.kind, False,
+                                            frozenset("sorted+edit" if t == "sorted" else t for t in recv.tags))
                     return [(App(f".{meth}", (recv, *args), kws, line), s)]
             if (isinstance(recv, Const) and isinstance(recv.v, str)) or isinstance(recv, StrT):
                 if meth == "join" and len(args) == 1:
@@ -1677,7 +1692,11 @@ class Interp:
                                     parts.extend(recv.parts if isinstance(recv, StrT) else [recv.v])
                                 parts.extend(it.parts if isinstance(it, StrT) else [it.v if isinstance(it, Const) and isinstance(it.v, str) else it])
                             return [(mkstr(parts), s)]
-                        return [(StrT((Rep(recv, a.items, a.nonempty),)), s)]
+                        tg = set(a.tags)
+                        if a.kind == "set":
+                            tg.add("dedup")
+                            tg.add("unordered")
+                        return [(StrT((Rep(recv, a.items, a.nonempty, frozenset(tg)),)), s)]
                     return [(StrT((Rep(recv, (App("elem", (a,), ()),)),)), s)]
                 if isinstance(recv, Const):
                     if meth in ("upper", "lower", "strip", "lstrip", "rstrip") and all(isinstance(a, Const) for a in args):
